@@ -149,12 +149,74 @@ def case_job(arg):
     return rep
 
 
+def orphan_job(arg):
+    """Store state left by a killed writer (blobs whose metadata never arrived), then a dry run of the pipeline that
+    owns those keys: it must not touch the store directory; the following full evaluation returns the reference values."""
+    p0, stages, k, store_kind, same_process = arg
+    rep = core.Report("C15")
+    rep.evaluations = 1
+    case = {"orphan": True, "program": p0, "stages": stages, "store": store_kind, "same_process": same_process}
+    desc = "stages=%r store=%s after blobs lost their metadata (killed writer)" % (stages, store_kind)
+    nodes = gen.kept_nodes(p0)
+    with core.Scratch("vp_c15o_") as td:
+        root = os.path.join(td, "code")
+        os.makedirs(root)
+        sdir = os.path.join(td, "store")
+        first = {"write": gen.render(p0), "how": "import", "modules": gen.import_order(p0), "entry": _entry(p0)}
+        dry = {"write": gen.render(p0), "how": "import", "modules": gen.import_order(p0), "store_damage": "drop_meta", "entry": _entry(p0, {"dds_stages": stages})}
+        full = {"how": "none", "entry": _entry(p0), "post_loads": sorted(nodes)}
+        segs = [[first], [dry, full]] if same_process else [[first], [dry], [dict(full, write=gen.render(p0), how="import", modules=gen.import_order(p0))]]
+        outs = []
+        for st in segs:
+            o = core.fork_call(run_segment, {"mode": "impl", "root": root, "accept": [p0["pkg"]], "steps": st, "store": {"kind": store_kind, "dir": sdir}, "tree_hash": True}, timeout=300)
+            if isinstance(o, core.JobFailed):
+                rep.inconclusive.append("worker: %r" % (o,))
+                return rep
+            outs += o["steps"]
+        ref = core.fork_call(run_segment, {"mode": "ref", "root": root, "accept": [], "steps": [{"write": gen.render(p0), "how": "import", "modules": gen.import_order(p0), "entry": _entry(p0)}]}, timeout=300)
+    if isinstance(ref, core.JobFailed):
+        rep.inconclusive.append("ref worker failed")
+        return rep
+    for o in outs + ref["steps"]:
+        if "setup_error" in o:
+            rep.inconclusive.append("setup error: %s" % o["setup_error"][-300:])
+            return rep
+    d, f = outs[1], outs[2]
+    if not d.get("damaged"):
+        rep.inconclusive.append("no metadata file found to remove")
+        return rep
+
+    def bad(what, mech):
+        rep.violate("%s: %s" % (desc, what), case, mechanism=mech)
+
+    rep.count("dry_runs_on_damaged_store")
+    if d["result"][0] != "ok":
+        bad("restricted evaluation raised %s(%s)" % (d["result"][1], d["result"][2][:150]), "restricted-run-raised")
+        return rep
+    if d["log"]:
+        bad("dry run ran user code: %r" % d["log"][:5], "dry-run-ran-user-code")
+    if d["stored"] or d["sync_begun"]:
+        bad("dry run wrote to the store (%d blobs, %d commits)" % (len(d["stored"]), d["sync_begun"]), "dry-run-stored-blob")
+    if d["tree"] != d["tree_before"]:
+        bad("store directory changed during the dry run", "dry-run-changed-store")
+    fr, rr = f["result"], ref["steps"][0]["result"]
+    rep.count("followup_full_evaluations")
+    if fr[0] != "ok" or rr[0] != "ok" or pickle.loads(fr[1]) != pickle.loads(rr[1]):
+        bad("full evaluation after the dry run returned %s, reference %s" % (fr[1:3] if fr[0] != "ok" else fr[2][:100], rr[2][:100] if rr[0] == "ok" else rr[1:3]), "followup-wrong-value")
+    for path in nodes:
+        lv = f["loads"].get(path)
+        if lv is None or lv[0] != "ok":
+            bad("path %s not loadable after the full evaluation" % path, "followup-path-missing")
+    rep.nontriv(("c15orphan", gen.h(gen.render(p0)), repr(stages), store_kind))
+    return rep
+
+
 def run(tier, seed):
     rep = core.Report("C15")
     rng = core.rng_for(seed, "c15")
     rep.rule = (
         "programs (matrix skeletons in 4 layouts + random DAG programs) x stage lists = every prefix of the stage order (length 0-5) spelled lower / upper / capitalised / as enum members / mixed "
-        "x stores memory, local, local+cache x fresh or populated store (full run of v0, then restricted run of an edited v1) x follow-up in the same or a new process. "
+        "x stores memory, local, local+cache x fresh or populated store (full run of v0, then restricted run of an edited v1) x follow-up in the same or a new process; plus dry runs on a local store whose blobs lost their metadata files (the state a killed writer leaves): directory tree unchanged. "
         "distinct_nontrivial = distinct (program, stage list, store, populated) cases whose restricted run and follow-up full run were both observed."
     )
     programs = []
@@ -178,14 +240,21 @@ def run(tier, seed):
                         continue
                     for populated in (False, True):
                         jobs.append((p0, p1, stages, k, store_kind, populated, (pi + k) % 2 == 0))
-    results = core.fork_map(case_job, jobs, timeout=900)
-    for j, r in zip(jobs, results):
+    ojobs = []
+    for pi, p0 in enumerate(programs):
+        for k in (1, 2):
+            vs = stage_variants(k, rng)
+            for store_kind in ("local", "local_lru"):
+                ojobs.append((p0, vs[(pi + k) % len(vs)], k, store_kind, (pi + k) % 2 == 0))
+    results = core.fork_map(lambda j: orphan_job(j[1]) if j[0] == "o" else case_job(j[1]), [("c", j) for j in jobs] + [("o", j) for j in ojobs], timeout=900)
+    for j, r in zip(jobs + [None] * len(ojobs), results):
         if isinstance(r, core.JobFailed):
             rep.inconclusive.append("case: %r" % (r,))
             continue
         rep.merge(r)
-        rep.bump("prefix_length", j[3])
-        rep.bump("store", j[4])
+        if j is not None:
+            rep.bump("prefix_length", j[3])
+            rep.bump("store", j[4])
     rep.sample({"stages": jobs[5][2], "store": jobs[5][4], "populated": jobs[5][5]})
     rep.sample({"stages": jobs[-1][2], "store": jobs[-1][4], "populated": jobs[-1][5]})
     if rep.counters.get("dry_runs", 0) == 0:
@@ -197,6 +266,9 @@ def run(tier, seed):
 def replay(payload):
     rep = core.Report("C15")
     c = payload["case"]
+    if c.get("orphan"):
+        rep.merge(orphan_job((c["program"], c["stages"], len(c["stages"]), c["store"], c["same_process"])))
+        return rep
     k = len(c["stages"])
     rep.merge(case_job((c["program"], c["edited"], c["stages"], k, c["store"], c["populated"], c["same_process"])))
     return rep
